@@ -327,3 +327,10 @@ func BFS[S comparable](r *Run, init []S, nOps int, maxDepth int, step func(w *W,
 	w.points += int64(len(seen))
 	return st
 }
+
+// Serial runs fn on the calling goroutine with a worker context (for small phases).
+func (r *Run) Serial(fn func(w *W)) {
+	w := r.newW()
+	fn(w)
+	w.flush()
+}
